@@ -41,6 +41,10 @@ def lifeRound (scripts : List (List Char)) (r : LRun) (j : Nat) : LRun := Id.run
       else if a == 'S' || a == 's' then
         -- the request is handled; both flushes of the streamed answer fail (the client is gone); then the read side sees the loss
         r := { ((((r.ev (.data i)).tev (.queueWrite i)).ev (.writeFail i)).ev (.writeFail i)).ev (.gone i) with open_ := r.open_.set i false }
+      else if a == 'E' then
+        -- the idle time-out and the client's close are noticed together: whichever is handled first releases the connection, the
+        -- other finds it gone
+        r := { (r.ev (.expire i)).ev (.gone i) with open_ := r.open_.set i false }
       else if a == 'C' || a == 'H' || a == 'X' then
         r := { r.ev (.gone i) with open_ := r.open_.set i false }
       else if a == 'T' then waitT := true
